@@ -117,7 +117,23 @@ def render(kind, code, reason, headers, framing, body, chunks=None, fr_name=None
     else:
         assert body == b""
     exp = (kind, code, ver, reason, [(title_name(n.strip()), v.strip()) for n, sep, v in hl], body)
-    return out, exp, framing
+    # the same message in the grammar of the Coq theorem hfeed_correct (driver request 'wire')
+    raw = []
+    for n, sep, v in hl:
+        pre, post = sep.split(":", 1)
+        raw.append(hx((n + pre).encode()) + "=" + hx((post + v).encode()))
+    if framing == "cl" and body:
+        fr = "F:" + hx(body)
+    elif framing == "chunked":
+        pos, cs = 0, []
+        for c in chunks:
+            cs.append(hx((hexfmt % c).encode()) + "=" + hx(body[pos:pos + c]))
+            pos += c
+        fr = "C:" + (",".join(cs) if cs else ".") + ":30"
+    else:
+        fr = "N"
+    wire = " ".join(["wire", hx(ver.encode()), hx(str(code).encode()), hx(reason.encode()), ",".join(raw) if raw else ".", fr])
+    return out, exp, framing, wire
 
 
 def catalogue():
@@ -308,6 +324,20 @@ def first_diff_framing(msgs, got, want):
     return "extra"
 
 
+def check_wires(drv, msgs, add):
+    """every message the generators call well-formed lies in the grammar wf_wire of the Coq theorem
+    hfeed_correct, renders to the same bytes there, and interp gives the expected message"""
+    seen, uniq = set(), []
+    for m in msgs:
+        if m[3] not in seen:
+            seen.add(m[3]); uniq.append(m)
+    for m, ans in zip(uniq, drv.batch([m[3] for m in uniq])):
+        want = "true " + hx(m[0]) + " " + canon_msgs("run", [m[1]]).split(" ", 2)[2]
+        if ans != want:
+            add("wf-domain:outside-coq-grammar", f"a generated well-formed message is not wf_wire / renders or interprets differently in "
+                f"Model/HttpWire.v: {ans[:160]}", False, wire=m[3], expected=want, got=ans)
+
+
 # ---------------------------------------------------------------- run
 def run(ctx):
     return asyncio.run(_run(ctx))
@@ -382,6 +412,7 @@ async def _run(ctx):
                  framing="+".join(m[2] for m in ms) if len(ms) <= 2 else "triple")
         if len(cov.samples) < 4:
             cov.samples.append(dict(stream="A", bytes=s.decode("latin1"), segmentations=n, delivered=len(ms)))
+    check_wires(drv, [m for ms in ex_streams for m in ms], add)
     cov.extra["exhaustive"] = True
     cov.extra["exhaustive_part"] = (f"{len(ex_streams)} well-formed streams <= 160 bytes (every catalogue message alone, every ordered pair" + (" of 8 of them" if tier == "quick" else "") + f", "
                                     f"{6 if tier == 'quick' else 260} sampled triples): every single and every double cut position, "
@@ -407,6 +438,7 @@ async def _run(ctx):
             cuts = rand_cuts(r, s + tail, k)
         cases.append((ms, s + tail, cuts))
     answers = drv.batch(["feed " + " ".join(hx(p) for p in split(s, cuts)) for ms, s, cuts in cases])
+    check_wires(drv, [m for ms, s, cuts in cases for m in ms], add)
     for (ms, s, cuts), ans in zip(cases, answers):
         want = canon_msgs("run", [m[1] for m in ms])
         ref_msgs, ref_status = ref_parse(s)
@@ -506,7 +538,7 @@ async def _run(ctx):
     cov.bulk(6 * len(prims), 0, stream="D-primitives")
 
     cov.extra["observations"] = obs
-    cov.extra["wf_domain"] = ("property claimed for well-formed messages (strict grammar in harness/ref/http_ref.py). Explicitly excluded as "
+    cov.extra["wf_domain"] = ("every generated well-formed message is checked (driver request 'wire') to satisfy wf_wire, the hypothesis of hfeed_correct, and to render to the same bytes. Property claimed for well-formed messages (strict grammar in harness/ref/http_ref.py). Explicitly excluded as "
                               "ill-formed (model class 'illformed', counted under observations, never a violation): a message with both "
                               "Transfer-Encoding: chunked and a positive Content-Length; a negative chunk size. Not modelled: status/header "
                               "lines with bytes >= 0x80 (model class 'unmodelled': implementation checked for nothing there).")
